@@ -316,6 +316,16 @@ func plainShapes(thorough bool) []shape {
 	for i := 0; i < n; i += step { // four fields
 		add(ids[i], ids[(i+3)%n], ids[(i+6)%n], ids[(i+9)%n])
 	}
+	if thorough { // every ordered triple over a core of five kinds
+		core := []string{"int", "str", "seqstr", "pint", "nest"}
+		for _, a := range core {
+			for _, b := range core {
+				for _, c := range core {
+					add(a, b, c)
+				}
+			}
+		}
+	}
 	// equal field types next to each other (position-distinguishable only by declaration order)
 	add("int", "int")
 	add("str", "str", "str")
